@@ -289,7 +289,7 @@ harness(void) {
 
 #if VP_MODE == 0
   {
-    int k, op = 0, before = 0;
+    int k, op = 0, before = 0, burst = 0, fwd_skip = 0, bwd_skip = 0;
     uint8_t t[1];
 
     for (k = 0; k < VP_K; k++) {
@@ -302,6 +302,12 @@ harness(void) {
 #endif
       before = vp_creations;
       vp_apply(op, vp_os[k], t);
+
+      if (vp_creations - before >= 2) {
+        burst = 1;
+        if (op == VP_OP_FIRST && vp_cur >= 0) fwd_skip = 1;
+        if (op == VP_OP_LAST && vp_cur >= 0) bwd_skip = 1;
+      }
     }
 
     if (vp_cur >= 0) {
@@ -319,18 +325,20 @@ harness(void) {
     }
 
 #if VP_HAS_EMPTY
-    if (vp_creations - before >= 2) VP_WITNESS("one-op-opened-two-blocks");
+    if (burst) VP_WITNESS("one-op-opened-two-blocks");
 #endif
-#if VP_S0 == 0 && VP_TOTAL > 0 && VP_LAST_FIRST
-    if (vp_creations - before >= 2 && op == VP_OP_FIRST && vp_cur >= 0) VP_WITNESS("forward-skip-over-empty-block");
+#if VP_S0 == 0 && VP_TOTAL > 0 && ((VP_OS0 >> VP_OP_FIRST) & 1)
+    if (fwd_skip) VP_WITNESS("forward-skip-over-empty-block");
 #endif
-#if VP_SLAST == 0 && VP_TOTAL > 0 && VP_LAST_LAST
-    if (vp_creations - before >= 2 && op == VP_OP_LAST && vp_cur >= 0) VP_WITNESS("backward-skip-over-empty-block");
+#if VP_SLAST == 0 && VP_TOTAL > 0 && ((VP_OS0 >> VP_OP_LAST) & 1)
+    if (bwd_skip) VP_WITNESS("backward-skip-over-empty-block");
 #endif
     if (vp_any_error && vp_I.status == LDB_OK)
       VP_WITNESS("block-error-reported");
+#if VP_TOTAL > 0
     if (vp_saved != LDB_OK && vp_held >= 0 && vp_B[vp_held]->status == LDB_OK)
       VP_WITNESS("error-of-released-block-remembered");
+#endif
   }
 #else
   {
